@@ -74,7 +74,7 @@ async fn get_streams(
 async fn create_stream(
     State(state): State<Arc<AppState>>,
     Extension(identity): Extension<Identity>,
-    Json(command): Json<CreateStream>,
+    Json(mut command): Json<CreateStream>,
 ) -> Result<Json<StreamDetails>, CustomError> {
     command.validate()?;
 
@@ -92,9 +92,12 @@ async fn create_stream(
                 command.stream_id
             )
         })?;
+    let assigned_stream_id = stream.stream_id;
     let response = Json(mapper::map_stream(stream));
 
     let system = system.downgrade();
+    // journal the id the server assigned: replay numbers entities by counting and would otherwise renumber them
+    command.stream_id = Some(assigned_stream_id);
     let stream_id = command.stream_id;
     system
         .state
